@@ -70,6 +70,9 @@ EnvGate(q, e, name) ==   \* acts on system level q[1] and ancilla level q[e+1]
       [] name = "SC" -> << [q EXCEPT ![1] = (t + a) % D], 0 >>                \* ancilla-controlled shift of the system
       [] name = "SW" -> << [q EXCEPT ![1] = a % D, ![e + 1] = t % ed], 0 >>   \* swap (needs ed = D)
       [] name = "CSP" -> << [q EXCEPT ![e + 1] = (a + t) % ed], t * a + a >>  \* shift and phase
+      [] name = "SX" -> << [q EXCEPT ![1] = (t + 1) % D], t >>                \* acts on the system alone (the environment
+                                                                                \* decouples in this step; with ed = 1 a
+                                                                                \* memoryless environment: unit bonds)
 
 SystemDiagonal(name) == name \in {"I", "CS", "CP", "CSP"}
 
